@@ -22,22 +22,22 @@ func init() {
 }
 
 type c19Plan struct {
-	name        string
-	startFail   bool
-	life        time.Duration // <0: runs until signalled
-	end         simkernel.WaitStatus
-	onTerm      string // default | trap | ignore
-	trapDelay   time.Duration
-	trapCode    int
-	killLatency time.Duration
-	kids        []c19Kid
-	proc        *simkernel.Proc
-	kidProcs    []*simkernel.Proc
-	execDone    bool
+	name         string
+	startFail    bool
+	life         time.Duration // <0: runs until signalled
+	end          simkernel.WaitStatus
+	onTerm       string // default | trap | ignore
+	trapDelay    time.Duration
+	trapCode     int
+	killLatency  time.Duration
+	kids         []c19Kid
+	proc         *simkernel.Proc
+	kidProcs     []*simkernel.Proc
+	execDone     bool
 	execDoneTick int64
-	spawnErr    error
-	execErr     error
-	execStarted bool
+	spawnErr     error
+	execErr      error
+	execStarted  bool
 }
 
 type c19Kid struct {
@@ -372,13 +372,17 @@ func scenC19(r *Run, job *Job) {
 			}
 			c := &c19Call{kind: "kill", name: p.name, deadline: r.Now() + dl}
 			deadline := time.Now().Add(dl)
-			issue(c, func() error { return sv.Kill(ctx, &model.KillRequest{Domain: "runtime", Name: p.name, Deadline: deadline}) })
+			issue(c, func() error {
+				return sv.Kill(ctx, &model.KillRequest{Domain: "runtime", Name: p.name, Deadline: deadline})
+			})
 		case 3: // unknown names
 			name := []string{"nobody", "proc-99", ""}[t.Draw(3)]
 			if t.Chance(1, 2) {
 				c := &c19Call{kind: "kill", name: name, deadline: r.Now() + time.Second}
 				deadline := time.Now().Add(time.Second)
-				issue(c, func() error { return sv.Kill(ctx, &model.KillRequest{Domain: "runtime", Name: name, Deadline: deadline}) })
+				issue(c, func() error {
+					return sv.Kill(ctx, &model.KillRequest{Domain: "runtime", Name: name, Deadline: deadline})
+				})
 			} else {
 				c := &c19Call{kind: "terminate", name: name}
 				issue(c, func() error { return sv.Terminate(ctx, &model.TerminateRequest{Domain: "runtime", Name: name}) })
@@ -417,7 +421,9 @@ func scenC19(r *Run, job *Job) {
 			p := p
 			c := &c19Call{kind: "kill", name: p.name, deadline: r.Now() + 30*time.Second}
 			deadline := time.Now().Add(30 * time.Second)
-			issue(c, func() error { return sv.Kill(ctx, &model.KillRequest{Domain: "runtime", Name: p.name, Deadline: deadline}) })
+			issue(c, func() error {
+				return sv.Kill(ctx, &model.KillRequest{Domain: "runtime", Name: p.name, Deadline: deadline})
+			})
 			r.Settle()
 		}
 	}
